@@ -2,6 +2,7 @@ mod arith;
 mod drive;
 mod pb;
 mod proj;
+mod qsweep;
 mod run;
 mod sim;
 mod store;
@@ -58,7 +59,7 @@ fn main() {
             for k in 0..runs {
                 let mut rng = rand::rngs::StdRng::seed_from_u64(seed ^ (k << 20));
                 let setup = drive::random_setup(&mut rng);
-                let opts = drive::WalkOpts { honest: mode == "honest", admin_ops: mode == "admin", steps };
+                let opts = drive::WalkOpts { honest: mode == "honest", admin_ops: mode == "admin", steps, sweep_every: 0, sweeps: Default::default() };
                 drive::walk(&mut sink, seed, k + 1, setup, &opts);
             }
             eprintln!("lines={}", sink.n);
@@ -120,6 +121,77 @@ fn main() {
             let v = arith::big(seed, count);
             std::fs::write(&args[4], serde_json::to_string(&v).unwrap()).unwrap();
             println!("{}", json!({"vectors": v.len()}));
+        }
+        Some("qsweep") => {
+            // qsweep <out> <seed> <runs> <steps> <every>: chaos walks with periodic sweeps of the read API
+            use rand::SeedableRng;
+            use std::io::Write;
+            let seed: u64 = args[3].parse().unwrap();
+            let runs: u64 = args[4].parse().unwrap();
+            let steps: usize = args[5].parse().unwrap();
+            let every: usize = args[6].parse().unwrap();
+            let mut out = std::io::BufWriter::new(std::fs::File::create(&args[2]).unwrap());
+            let mut sink = Sink::new(Box::new(std::io::sink()));
+            let mut n = 0usize;
+            for k in 0..runs {
+                let mut rng = rand::rngs::StdRng::seed_from_u64(seed ^ (k << 20));
+                let mut setup = drive::random_setup(&mut rng);
+                setup.batch_period = 20; // many batches
+                setup.unbonding = 30;
+                let opts = drive::WalkOpts { honest: false, admin_ops: false, steps, sweep_every: every, sweeps: Default::default() };
+                // scripted build-up: several batches in mixed statuses, packets in every status, users in several batches
+                {
+                    use rand::Rng;
+                    let mut r = Run::new(setup.clone(), 1000 + k);
+                    r.start(&mut sink);
+                    r.apply(&mut sink, &json!({"m":"resume_contract","s":"admin","n":0,"l":0,"r":0}));
+                    let users: Vec<String> = ["u1", "u2", "u3", "c1", "u5"].iter().map(|s| s.to_string()).collect();
+                    for u in ["u1", "u2", "u3"] {
+                        r.apply(&mut sink, &json!({"m":"faucet","a":u,"d":"IBCTIA","x":2000}));
+                    }
+                    let rounds = 3 + (k % 4);
+                    for round in 0..rounds {
+                        for u in ["u1", "u2", "u3"] {
+                            r.apply(&mut sink, &json!({"m":"liquid_stake","s":u,"funds":[["IBCTIA",rng.gen_range(50..150u64)]],"mint_to": if rng.gen_bool(0.3) {"n:u1"} else {""},"to_native":"none","expected":-1}));
+                            if rng.gen_bool(0.7) {
+                                r.apply(&mut sink, &json!({"m":"liquid_unstake","s":u,"funds":[["LST",rng.gen_range(5..40u64)]]}));
+                            }
+                            if rng.gen_bool(0.3) {
+                                r.apply(&mut sink, &json!({"m":"liquid_unstake","s":u,"funds":[["LST",rng.gen_range(1..9u64)]]}));
+                            }
+                        }
+                        qsweep::sweep(&r.w, &users, &mut opts.sweeps.borrow_mut());
+                        r.apply(&mut sink, &json!({"m":"time","dt":20}));
+                        r.apply(&mut sink, &json!({"m":"submit_batch","s":"u1"}));
+                        // resolve some packets: ok / err / timeout, leave some in flight
+                        let fly: Vec<u64> = r.w.fly.keys().cloned().collect();
+                        for s in fly {
+                            match rng.gen_range(0..5) {
+                                0 => { r.apply(&mut sink, &json!({"m":"ibc_ack","seq":s,"outcome":"err"})); }
+                                1 => { r.apply(&mut sink, &json!({"m":"ibc_ack","seq":s,"outcome":"timeout"})); }
+                                2 => {}
+                                _ => { r.apply(&mut sink, &json!({"m":"ibc_ack","seq":s,"outcome":"ok"})); }
+                            }
+                        }
+                        if round % 2 == 0 {
+                            r.apply(&mut sink, &json!({"m":"time","dt":30}));
+                            let b = round + 1;
+                            let exp = r.w.query(json!({"batch": {"id": b}}))["expected_native_unstaked"].as_str().and_then(|x| x.parse::<u64>().ok()).unwrap_or(1).max(1);
+                            r.apply(&mut sink, &json!({"m":"hook","inner":"receive_unstaked_tokens","channel":"channel-1","from":"staker","amt":exp,"b":b,"limited":false}));
+                            if rng.gen_bool(0.5) {
+                                r.apply(&mut sink, &json!({"m":"withdraw","s":"u2","b":b}));
+                            }
+                        }
+                        qsweep::sweep(&r.w, &users, &mut opts.sweeps.borrow_mut());
+                    }
+                }
+                drive::walk(&mut sink, seed, k + 1, setup, &opts);
+                for r in opts.sweeps.borrow().iter() {
+                    writeln!(out, "{}", r).unwrap();
+                    n += 1;
+                }
+            }
+            println!("{}", json!({"records": n}));
         }
         Some("hookvec") => {
             // hookvec <seed> <n> <out>: the contract's derive_intermediate_sender next to the simulator's own
